@@ -864,6 +864,11 @@ def judge_case(ctx, c, line, o, po, mres, allres, st):
             bad.append(('merge-units', 'the multiset of %s unit sub-segments of the merged lines differs from that of the input' % ('directed' if c['directed'] else 'undirected'), None))
         if bits[1] != '1':
             bad.append(('merge-degree-two', 'two different output lines end at a node through which the merger must continue', None))
+        if len(bits) > 2 and bits[2] != '1':
+            outs = lines_of(po[0])
+            kf = find_known(ctx, 'C19-F5') if lost_only_isolated_points(c['lines'], outs) and not lost_only_isolated_points(outs, c['lines']) \
+                and all(on_lines_exact(p, c['lines']) for l in outs for p in l) else None
+            bad.append(('merge-point-set', 'a vertex of the input (output) linework does not lie on the output (input) linework', kf))
     elif k == 'node':
         ii = c['lines']
         segs = [(l[j], l[j + 1]) for l in ii for j in range(len(l) - 1) if l[j] != l[j + 1]]
@@ -881,6 +886,9 @@ def judge_case(ctx, c, line, o, po, mres, allres, st):
                     ctx.broken.append(dict(kind='correspondence', name='seg_ok vs KernelDefs.seg_class', detail=ml[:2000]))
                 else:
                     kf = None
+                    if n == 'node-disjoint' and c['op'] == 'UU' and only_collinear_overlaps(lines_of(po[0])) and \
+                            any(isinstance(v, float) and v != int(v) for l in c['lines'] for p in l for v in p):
+                        kf = find_known(ctx, 'C19-F4')
                     if n == 'node-input-vertex-on-output' and c['op'] == 'UU' and lost_only_isolated_points(c['lines'], lines_of(po[0])):
                         kf = find_known(ctx, 'C19-F3')
                     bad.append((n, w, kf))
@@ -940,6 +948,35 @@ def judge_case(ctx, c, line, o, po, mres, allres, st):
     elif k == 'lr':
         bad += judge_lr(ctx, c, line, o, po, mres, allres, st)
     return bad
+
+
+def only_collinear_overlaps(outs):
+    """key of C19-F4: the output segment pairs that meet elsewhere than at a common end point are all exactly collinear"""
+    segs = [((Fr(a[0]), Fr(a[1])), (Fr(b[0]), Fr(b[1]))) for l in outs for a, b in zip(l, l[1:]) if a != b]
+    sg = lambda x: (x > 0) - (x < 0)
+    found = False
+    for i in range(len(segs)):
+        for j in range(i + 1, len(segs)):
+            a, b = segs[i]; c, d = segs[j]
+            d1, d2, d3, d4 = cross(a, b, c), cross(a, b, d), cross(c, d, a), cross(c, d, b)
+            if sg(d1) * sg(d2) <= 0 and sg(d3) * sg(d4) <= 0:
+                if d1 == 0 and d2 == 0 and d3 == 0 and d4 == 0:
+                    t = lambda q: (q[0] - a[0]) * (b[0] - a[0]) + (q[1] - a[1]) * (b[1] - a[1])
+                    lo, hi = sorted([t(c), t(d)])
+                    if hi <= 0 or lo >= t(b):
+                        continue
+                    found = True; continue
+                shared = [p for p in (a, b) if p in (c, d)]
+                if len(shared) == 1:
+                    continue
+                if d1 != 0 and d2 != 0 and d3 != 0 and d4 != 0:
+                    return False          # a proper crossing: not this finding
+                found = True
+    return found
+
+
+def on_lines_exact(p, lines):
+    return any(d2_pt_seg(p, a, b) == 0 for l in lines for a, b in zip(l, l[1:]))
 
 
 def lost_only_isolated_points(ins, outs):
